@@ -3,10 +3,10 @@
    re-checked against it.  Nothing else lives here. *)
 From Coq Require Import Lia.
 From RV.Model Require Import Base Word Limbs Bytes DivRecip DivSmall Redc.
-From RV.Model Require DivRef DivKnuth.
+From RV.Model Require DivRef DivKnuth Shift.
 From RV.Gen Require Import Prim Scalar.
 From RV.Model Require Add Mul UDiv Conv Bits.
-From RV.Proofs Require Import BaseFacts PfGenScalar PfGenAdd PfGenMul PfGenDiv PfGenSpecial PfGenCtor PfGenBits PfGenDivRef PfGenLimbs PfGenRedc PfGenKnuth.
+From RV.Proofs Require Import BaseFacts PfGenScalar PfGenAdd PfGenMul PfGenDiv PfGenSpecial PfGenCtor PfGenBits PfGenDivRef PfGenLimbs PfGenRedc PfGenKnuth PfGenShift.
 
 Theorem GenTie_source_equals_model :
   (forall bits, 0 <= bits -> bits + 63 < B -> g_nlimbs bits = Val (nlimbs bits)) /\
@@ -324,6 +324,25 @@ Theorem GenTie_limbs_ret :
 Proof. exact (conj g_add_nx1_eq (conj g_slice_cmp_eq g_addmul_n_eq)). Qed.
 Print Assumptions GenTie_limbs_ret.
 
+(* src/bits.rs shifts: overflowing_shl / overflowing_shr (index loops writing r[i + limbs] resp.
+   r[LIMBS - 1 - i - limbs], the closure `.iter().any(|&x| x != 0)` over the dropped limbs, short-circuit
+   `||`, apply_mask) and the wrappers checked_/saturating_/wrapping_shl, checked_/wrapping_shr *)
+Theorem GenTie_shift_rs : forall bits a rhs,
+  0 <= bits -> nlimbs bits < B -> length a = nlimbsN bits -> 0 <= rhs ->
+  g_overflowing_shl bits (nlimbs bits) a rhs = Val (Shift.overflowing_shl bits a rhs) /\
+  g_overflowing_shr bits (nlimbs bits) a rhs = Val (Shift.overflowing_shr bits a rhs) /\
+  g_checked_shl bits (nlimbs bits) a rhs = Val (Shift.checked_shl bits a rhs) /\
+  g_saturating_shl bits (nlimbs bits) a rhs = Val (Shift.saturating_shl bits a rhs) /\
+  g_wrapping_shl bits (nlimbs bits) a rhs = Val (Shift.wrapping_shl bits a rhs) /\
+  g_checked_shr bits (nlimbs bits) a rhs = Val (Shift.checked_shr bits a rhs) /\
+  g_wrapping_shr bits (nlimbs bits) a rhs = Val (Shift.wrapping_shr bits a rhs).
+Proof.
+  intros bits a rhs Hb HB Hl Hr.
+  exact (conj (g_overflowing_shl_eq bits a rhs Hb HB Hl Hr)
+        (conj (g_overflowing_shr_eq bits a rhs Hb HB Hl Hr) (g_shift_wrappers_eq bits a rhs Hb HB Hl Hr))).
+Qed.
+Print Assumptions GenTie_shift_rs.
+
 (* the premises are satisfiable and the generated code computes: reciprocal(2^63) = 2^64 - 1 *)
 Example GenTie_nonvacuous :
   g_reciprocal_mg10 (2 ^ 63) = Val (2 ^ 64 - 1) /\ g_mask 65 = Val 1 /\ g_nlimbs 65 = Val 2 /\
@@ -339,6 +358,8 @@ Example GenTie_nonvacuous :
   g_mul_redc 1 [3] [5] [15] 0x1111111111111111 = Val [0] /\
   g_add_nx1 [2 ^ 64 - 1; 2 ^ 64 - 1; 7] 1 = Val (0, [0; 0; 8]) /\
   g_slice_cmp [5; 1] [9; 1; 0] = Val Lt /\
+  g_overflowing_shl 65 2 [0; 1] 1 = Val ([0; 0], true) /\
+  g_overflowing_shr 65 2 [1; 1] 64 = Val ([1; 0], true) /\
   g_square_redc 2 [5; 0] [9; 1] 0x71c71c71c71c71c7 = Val [14119730031728298775; 0] /\
   g_div_nxm_normalized [0x1656178c14142000; 0x821415dfe9e81612; 0x1616561616161616; 0x96000016820016]
                        [0x1415dfe9e8161414; 0x1656161616161682; 0x9600001682001616]
